@@ -1,7 +1,7 @@
 (* C17 — thorough tier: the regenerated name parser on ALL 39 204 catalogued 2-qutrit gate names (see coq/gen/C17_Equiv.v). Axiom-free. *)
 From Coq Require Import String Ascii List ZArith QArith Qcanon Bool Arith Lia.
 From QV.Core Require Import OF Sums Mat C17_Z8.
-From QV.Model Require Import C17_Tables C17_Names C17_PySem.
+From QV.Model Require Import C17_Tables C17_Names C17_PySem C17_Permute.
 From QV.Proofs Require Import C17_Tables C17_Names.
 From QVGen Require Import Gen_c17_names C17_Equiv.
 Import ListNotations.
@@ -21,3 +21,15 @@ Theorem C17gen_2qutrit_names_denote_tables :
 Proof. intros name terms H. exists (map expected_term terms). split; [now apply C17gen_2qutrit_names_parse|].
   apply denote4_expected; [exact C17gen_base_matrices_are_tables|]. now apply (cat_2qutrit_terms_good name). Qed.
 Print Assumptions C17gen_2qutrit_names_denote_tables.
+
+(* four pairwise different ids below 5 (120 lists), all 256 symbols *)
+Theorem C17gen_permute_pauli_symbol_bounded4 :
+  forall ids, In ids (ids_lists 5 4) -> forall v, In v (nprod [0; 1; 2; 3]%nat 4) ->
+    is_imat (g_get_permutation_matrix_from_ascending_order (vints ids)) (matP_rows ids) = true /\
+    is_str (g_permute_pauli_symbol (VStr (symbol_of v)) (vints ids)) (symbol_of (C17_Permute.permute_fixed ids v)) = true.
+Proof. intros ids Hi v Hv.
+  assert (A : forallb (fun ids => is_imat (g_get_permutation_matrix_from_ascending_order (vints ids)) (matP_rows ids) &&
+                                  forallb (fun v => is_str (g_permute_pauli_symbol (VStr (symbol_of v)) (vints ids)) (symbol_of (C17_Permute.permute_fixed ids v)))
+                                         (nprod [0; 1; 2; 3]%nat 4)) (ids_lists 5 4) = true) by (vm_cast_no_check (@eq_refl bool true)).
+  rewrite forallb_forall in A. specialize (A ids Hi). rewrite andb_true_iff, forallb_forall in A. split; [apply A|now apply A]. Qed.
+Print Assumptions C17gen_permute_pauli_symbol_bounded4.
